@@ -26,6 +26,21 @@ CHECKS = {
    text="TLC checks on Wallet.tla (two objects of one seed; Sign, SetIndex in one or several jumps, Crash, Rebuild from seed / extended seed / mnemonic through the concrete descriptor codec) that the state of any live object equals the canonical state after idx signatures of a fresh key, for every interleaving (h=4 all jumps, h=6 jump classes); SignAdvance and JumpAdvance are separate transcriptions of the two copies of the traversal step, so their agreement is a checked fact. On the real code, for every crash index the object is rebuilt three ways (seed + one jump, extended seed + two jumps, mnemonic + signatures + jump) and must reproduce the original's signatures byte for byte (digest) and its live state; TLC-generated wallet behaviours (TLC -simulate on SimWallet.tla) are executed on real objects; every event is validated by TraceXmssKey.tla, which keeps per-seed tables index -> live state and (index, message) -> signature digest.",
    note="Signature equality after a crash is compared for a window of indices in the quick tier (whole remaining life at h=6/8 seam); heights above 10 are not rebuilt.",
    technique="explicit TLA+ spec + TLC exhaustive model checking; trace validation with per-seed ghost tables; TLC-generated behaviours replayed into the real code"),
+ "C09": dict(
+   level="model_checking", design_ref="6 (C09), 3.4-3.6",
+   text="Design: TLC checks that the descriptor codec round-trips for every value of its four nibbles (MCAddress, 65536 states), that a wallet rebuilt through any export kind gets the original parameters (Wallet.tla, DescriptorRoundTrip / RebuildPreservesIdentity) and that the mnemonic codec is a bijection (MCMnemonic). Conformance: real XMSS keys (h=4,6(,8) x 3 hash functions, from seeds and from fresh randomness) and Dilithium keys are re-created from every secret they export through the matching constructor; TLC (TraceRecover.tla) requires equal public key, address, secret key, seed and signatures (index 0 and after a jump; detached and sealed) and the specified layout of extended seed, mnemonic and hex seed; for all heights 0..30 the export/parse path is exercised without building a tree.",
+   note="Seeds are sampled (they only flow into SHAKE); equality is compared on SHA-256 digests; keys are built only for h<=8.",
+   technique="explicit TLA+ specs (Descriptor, Mnemonic, Wallet) + TLC; trace validation of real export/re-create runs (TraceRecover.tla)"),
+ "C10": dict(
+   level="model_checking", design_ref="6 (C10), 3.6",
+   text="Mnemonic.tla transcribes binToMnemonic's nibble cursor and mnemonicToBin's accumulator machine and strings.Split tokenisation on code points. TLC proves on it: enc/dec round trips and injectivity for every 12-bit value at every word position of 2-, 4-, 32- and 34-word phrases over several backgrounds, and for all 2^24 values of one 3-byte block (thorough). Conformance: the library's own word list is dumped and checked (4096 distinct non-empty [a-z]+ words); the real encoders/decoders are run on Latin-square phrases covering every (position, value) pair, on extreme and random seeds, and on ~60 classes of malformed phrases (unknown / near / upper-case words, tabs, newlines, empty tokens, wrong counts, other size); TLC decides for each logged call, from the phrase's code points, the value or refusal the specification prescribes (TraceMnemonic.tla); thorough adds the complete 2^24-entry table of the length-generic codec in both directions.",
+   note="The text of refusal messages is not compared (TLC strings are opaque).",
+   technique="explicit TLA+ spec of the codec + TLC exhaustive enumeration; trace validation of the real codec (complete function tables in the thorough tier)"),
+ "C11": dict(
+   level="model_checking", design_ref="6 (C11), 3.5",
+   text="Descriptor.tla / Address.tla define the descriptor codec, both address derivations, both validators and the legacy address/validator on bytes. TLC proves (MCAddress, all 65536 leading byte pairs): the two address spaces are disjoint, decode(encode(d)) = d for all field values, derived XMSS addresses are XMSS-valid and Dilithium-invalid, Dilithium addresses are Dilithium-valid and XMSS-invalid for every value of their second byte. Conformance: complete tables of the real parser/printer/validators over all 65536 prefixes x 3 third bytes and all 16x16x32x16 constructor inputs; address derivations for real keys and random public keys with SHAKE-256/SHA-256 digests computed by the harness with the standard library; legacy validity on valid addresses, all their 312 bit flips and random strings; each event judged by TraceAddress.tla.",
+   note="Public keys are a seeded sample (they only flow into the hash).",
+   technique="explicit TLA+ spec + TLC exhaustive enumeration of the descriptor space; trace validation with digests as recorded oracle values"),
 }
 
 NOT_YET = {
